@@ -235,6 +235,8 @@ def rewritten_overlay(root: str, how: str) -> dict:
             if len(movable) > 1:
                 rest = [st for st in tree.body if st not in movable]
                 tree.body = rest + list(reversed(movable))
+        elif how in _MORE:
+            tree = _MORE[how]().visit(tree)
         else:
             raise ValueError(how)
         ast.fix_missing_locations(tree)
@@ -242,3 +244,53 @@ def rewritten_overlay(root: str, how: str) -> dict:
         if ast.dump(ast.parse(new)) != ast.dump(ast.parse(src)):
             out[rel] = new
     return out
+
+
+class _FStringToFormat(ast.NodeTransformer):
+    """f"a{x:>3}b"  ->  "a{:>3}b".format(x)     (format specs that are plain text only)"""
+    def visit_JoinedStr(self, node):
+        # inner expressions first; the format specs (themselves JoinedStr nodes) are left as they are
+        for p in node.values:
+            if isinstance(p, ast.FormattedValue):
+                p.value = self.visit(p.value)
+        tmpl, args = "", []
+        for p in node.values:
+            if isinstance(p, ast.Constant):
+                tmpl += str(p.value).replace("{", "{{").replace("}", "}}")
+            else:
+                spec = ""
+                if p.format_spec is not None:
+                    if not all(isinstance(x, ast.Constant) for x in p.format_spec.values):
+                        return node
+                    spec = ":" + "".join(str(x.value) for x in p.format_spec.values)
+                conv = {-1: "", 115: "!s", 114: "!r", 97: "!a"}.get(p.conversion, "")
+                tmpl += "{" + conv + spec + "}"
+                args.append(p.value)
+        return ast.copy_location(ast.Call(ast.Attribute(ast.Constant(tmpl), "format", ast.Load()), args, []), node)
+
+
+class _SplitTupleAssign(ast.NodeTransformer):
+    """a, b = x, y  ->  a = x; b = y     (when no target name is read on the right)"""
+    def _split(self, stmts):
+        out = []
+        for st in stmts:
+            if isinstance(st, ast.Assign) and len(st.targets) == 1 and isinstance(st.targets[0], ast.Tuple) and isinstance(st.value, ast.Tuple) \
+                    and len(st.targets[0].elts) == len(st.value.elts) and all(isinstance(t, ast.Name) for t in st.targets[0].elts):
+                tnames = {t.id for t in st.targets[0].elts}
+                if not any(isinstance(n, ast.Name) and n.id in tnames for n in ast.walk(st.value)):
+                    for t, v in zip(st.targets[0].elts, st.value.elts):
+                        out.append(ast.copy_location(ast.Assign([t], v), st))
+                    continue
+            out.append(st)
+        return out
+
+    def generic_visit(self, node):
+        super().generic_visit(node)
+        for fld in ("body", "orelse", "finalbody"):
+            sub = getattr(node, fld, None)
+            if isinstance(sub, list) and sub and isinstance(sub[0], ast.stmt):
+                setattr(node, fld, self._split(sub))
+        return node
+
+
+_MORE = {"fstring-to-format": _FStringToFormat, "split-tuple-assign": _SplitTupleAssign}
